@@ -156,7 +156,7 @@ func init() {
 	libModels["strings.ReplaceAll"] = pure("uninterpreted function of its arguments", func(x *Exec, st *State, a []Val, site ssa.Instruction) []Val {
 		return []Val{{S: "Str", T: fmt.Sprintf("(strings.ReplaceAll %s %s %s)", x.term(st, a[0], false), x.term(st, a[1], false), x.term(st, a[2], false))}}
 	})
-	libModels["strings.TrimLeft"] = pure("a suffix of its argument (uninterpreted)", func(x *Exec, st *State, a []Val, site ssa.Instruction) []Val {
+	libModels["strings.TrimLeft"] = pure("some suffix s[k:] of its argument (k uninterpreted)", func(x *Exec, st *State, a []Val, site ssa.Instruction) []Val {
 		return []Val{{S: "Str", T: fmt.Sprintf("(strings.TrimLeft %s %s)", x.term(st, a[0], false), x.term(st, a[1], false))}}
 	})
 	libModels["strings.ContainsAny"] = pure("uninterpreted predicate", func(x *Exec, st *State, a []Val, site ssa.Instruction) []Val {
@@ -173,7 +173,7 @@ func init() {
 		ok := fmt.Sprintf("(strconv.ParseUint.ok %s %s)", s, b)
 		return []Val{{S: "Int", T: fmt.Sprintf("(strconv.ParseUint.val %s %s)", s, b)}, {S: "Err", T: fmt.Sprintf("(ite %s ErrNil (EOther %s))", ok, st.fresh("errid", "Int"))}}
 	})
-	libModels["strconv.FormatUint"] = pure("uninterpreted function of value and base", func(x *Exec, st *State, a []Val, site ssa.Instruction) []Val {
+	libModels["strconv.FormatUint"] = pure("uninterpreted function of value and base; non-empty; base 10 yields decimal digits only", func(x *Exec, st *State, a []Val, site ssa.Instruction) []Val {
 		return []Val{{S: "Str", T: fmt.Sprintf("(strconv.FormatUint %s %s)", x.term(st, a[0], false), x.term(st, a[1], false))}}
 	})
 	libModels["strconv.ParseFloat"] = pure("uninterpreted", func(x *Exec, st *State, a []Val, site ssa.Instruction) []Val {
@@ -220,10 +220,14 @@ const libPrelude = `; ---- assumed library vocabulary (A5)
 (assert (forall ((r Int)) (! (=> (and (<= 0 r) (< r 256)) (= (unicode.IsSpace r) (or (and (<= 9 r) (<= r 13)) (= r 32) (= r 133) (= r 160)))) :pattern ((unicode.IsSpace r)))))
 (declare-fun strings.ReplaceAll (Str Str Str) Str)
 (declare-fun strings.TrimLeft (Str Str) Str)
+(declare-fun strings.TrimLeft.idx (Str Str) Int)
+(assert (forall ((s Str) (c Str)) (! (and (<= 0 (strings.TrimLeft.idx s c)) (<= (strings.TrimLeft.idx s c) (Str.len s)) (= (strings.TrimLeft s c) (Str.slice s (strings.TrimLeft.idx s c) (Str.len s)))) :pattern ((strings.TrimLeft s c)))))
 (declare-fun strings.ContainsAny (Str Str) Bool)
 (declare-fun strconv.ParseUint.val (Str Int) Int)
 (declare-fun strconv.ParseUint.ok (Str Int) Bool)
 (declare-fun strconv.FormatUint (Int Int) Str)
+(assert (forall ((n Int) (b Int)) (! (> (Str.len (strconv.FormatUint n b)) 0) :pattern ((strconv.FormatUint n b)))))
+(assert (forall ((n Int) (i Int)) (! (=> (and (<= 0 i) (< i (Str.len (strconv.FormatUint n 10)))) (and (<= 48 (Str.nth (strconv.FormatUint n 10) i)) (<= (Str.nth (strconv.FormatUint n 10) i) 57))) :pattern ((Str.nth (strconv.FormatUint n 10) i)))))
 (declare-fun Str.ofRune (Int) Str)
 (define-fun gdiv ((a Int) (b Int)) Int (ite (= (>= a 0) (> b 0)) (div (abs a) (abs b)) (- (div (abs a) (abs b)))))
 (define-fun grem ((a Int) (b Int)) Int (- a (* b (gdiv a b))))
